@@ -12,6 +12,8 @@ model of libc's `gmtime_r` / `timegm` / `strftime`).  Instants are whole seconds
                         format × length combinations
 * `c19_rfc822_short_unparseable`  the sixth combination (RFC 822 date-only) is refused, for every
                         instant: the property as written fails there (known finding F8)
+* `c19_init_epoch_secs_double`, `c19_init_epoch_secs_carry_witness`   the double → (seconds, milliseconds) split over the
+                        rationals: ms ≤ 1000, views consistent also at ms = 1000
 * `c19_format_appends`, `c19_format_capacity`   the formatters append to the output buffer (prefix kept, `len` grows
                         by the text; refusal leaves it unchanged)
 * `c19_accessors`, `c19_parsed_fields`   accessors = the independent calendar's fields
@@ -126,6 +128,25 @@ theorem c19_nanos_plain_add_wraps :
     asMillis { timestamp := 20000000000, millis := 1 } = 20000000000001 ∧
     asNanos { timestamp := 20000000000, millis := 1 } = 18446744073709551615 :=
   Main.c19_nanos_plain_add_wraps
+
+/-- **`init_epoch_secs` on a double.**  For every finite non-negative double below 2^63 (given by its bit
+pattern; `modf`, the product with 1000.0 rounded to nearest-even, `round`, the cast — over the rationals): the
+timestamp is the integral part, the stored milliseconds are at most **1000** (reached when the fraction is in
+[0.9995, 1): `c19_init_epoch_secs_carry_witness`), the broken-down time is that of the timestamp, and the epoch
+views are consistent also then: `as_millis = 1000·timestamp + ms` (so a stored 1000 counts as one more second)
+and `as_nanos` is exact or saturated. -/
+theorem c19_init_epoch_secs_double (bits : Nat) (dt : DateTime) (h : initEpochSecsDouble bits = some dt) :
+    0 ≤ dt.timestamp ∧ dt.millis ≤ 1000 ∧ dt.gmt = gmtime dt.timestamp ∧
+    (1000 * dt.timestamp.toNat + dt.millis < u64 → asMillis dt = 1000 * dt.timestamp.toNat + dt.millis) ∧
+    asNanos dt = min (1000000000 * dt.timestamp.toNat + 1000000 * dt.millis) (u64 - 1) :=
+  Main.c19_init_epoch_secs_double bits dt h
+
+/-- 1033545909.9996 is stored as 1033545909 s + 1000 ms (views: 1033545910.000 s), 1033545909.9994 as … + 999 ms -/
+theorem c19_init_epoch_secs_carry_witness :
+    splitDouble 0x41cecd545afff2e5 = some (1033545909, 1000) ∧ splitDouble 0x41cecd545affec57 = some (1033545909, 999) ∧
+    asMillis { timestamp := 1033545909, millis := 1000 } = 1033545910000 ∧
+    asNanos { timestamp := 1033545909, millis := 1000 } = 1033545910000000000 :=
+  Main.c19_init_epoch_secs_carry_witness
 
 /-- **The formatters append.**  `aws_date_time_to_utc_time[_short]_str` on an output buffer that already
 holds `b.data` (capacity `b.cap`) behaves as the same call on an empty buffer of the remaining space:
